@@ -65,7 +65,23 @@ def check(ctx):
         var = lp.target.id
         for st in lp.body:
             if isinstance(st, ast.If):
-                ds = [(x, cs) for x, cs in isinstance_disjuncts(st.test) if x == var]
+                # a class tuple may be bound to a local name first: isinstance(c, unsupported)
+                test = st.test
+                local_tuples = {}
+                for a in statements(f.node):
+                    if isinstance(a, ast.Assign) and len(a.targets) == 1 and isinstance(a.targets[0], ast.Name) and isinstance(a.value, ast.Tuple):
+                        local_tuples.setdefault(a.targets[0].id, []).append(a.value)
+
+                class _Subst(ast.NodeTransformer):
+                    def visit_Call(self, node):
+                        self.generic_visit(node)
+                        if isinstance(node.func, ast.Name) and node.func.id == "isinstance" and len(node.args) == 2 and isinstance(node.args[1], ast.Name) \
+                                and len(local_tuples.get(node.args[1].id, [])) == 1:
+                            return ast.Call(func=node.func, args=[node.args[0], local_tuples[node.args[1].id][0]], keywords=[])
+                        return node
+                import copy as _copy
+                test = ast.fix_missing_locations(_Subst().visit(_copy.deepcopy(test)))
+                ds = [(x, cs) for x, cs in isinstance_disjuncts(test) if x == var]
                 if ds and _body_refuses(repo, mod, st.body):
                     for _, cs in ds:
                         for cn in cs:
@@ -110,5 +126,26 @@ def check(ctx):
                 node = st
     ctx.check(ok, "C29.block-kind", f, "len(block.crossings) != 1", "multi-crossing blocks are refused",
               "SMGen.sample no longer refuses blocks whose number of crossings differs from 1")
+    # ---- parallel lists of the weight encoding: an index list and its weight list are paired by position by the search
+    # core, so they must be appended to under the same conditions (same block, same number of appends)
+    R = "C29.parallel"
+    ew = ctx.fn("scattered_map_core:encode_weights")
+    PAIRS = [("inds", "w"), ("weighted_objects_init", "weights_init")]
+    n_blocks = 0
+    for node in ast.walk(ew.node):
+        for fld in ("body", "orelse"):
+            b = getattr(node, fld, None)
+            if not (isinstance(b, list) and b and isinstance(b[0], ast.stmt)):
+                continue
+            for a, w_ in PAIRS:
+                na = sum(1 for x in b if isinstance(x, ast.Expr) and isinstance(x.value, ast.Call) and dotted(x.value.func) == a + ".append")
+                nw = sum(1 for x in b if isinstance(x, ast.Expr) and isinstance(x.value, ast.Call) and dotted(x.value.func) == w_ + ".append")
+                if na or nw:
+                    n_blocks += 1
+                    ctx.check(na == nw, R, ew, "%s / %s appended together" % (a, w_), "`%s` and `%s` grow together" % (a, w_),
+                              "encode_weights appends to `%s` %d time(s) and to `%s` %d time(s) in one block: the two lists are paired by position later, so weights end up "
+                              "attached to the wrong levels" % (a, na, w_, nw), b[0])
+    ctx.require(n_blocks >= 4, "encode_weights: only %d blocks with paired appends found" % n_blocks)
+    ctx.min_instances("C29.parallel", 4)
     ctx.min_instances("C29.refusal", 5)
     ctx.min_instances("C29.registry", 16)
